@@ -3,7 +3,8 @@
 import json, os, subprocess, sys
 VERIF = os.path.dirname(os.path.dirname(os.path.abspath(__file__)))
 sys.path.insert(0, os.path.join(VERIF, "vp"))
-from props import PROPS, NOT_APPLICABLE, ENGINES
+from props import PROPS, NOT_APPLICABLE, ENGINES, CLAIMED
+PROPS = {k: v for k, v in PROPS.items() if k in CLAIMED}
 
 ids = [json.loads(l)["id"] for l in open(os.path.join(VERIF, "properties.jsonl")) if l.strip()]
 hook_commits = [l.split()[0] for l in subprocess.run(["git", "-C", "/repo", "log", "--format=%h %s"], capture_output=True, text=True).stdout.splitlines() if l.split(" ", 1)[1].startswith("verif hook")]
